@@ -584,6 +584,22 @@ def step (st : State) (toks : List String) : State × String :=
         ({ s := r.2.s, held := r.2.held }, obs r.1 r.2.s ++ s!" held={r.2.held.length}")
       else (st, "bad-op")
     | none => (st, "bad-op")
+  -- `lockrace n`: n times an unrelated local instance on K finishes (one more done mark) while a late message for the
+  -- run `done` and a config message for it are handled; sequentially that is the config message and the late message
+  | ["lockrace", n] =>
+    match n.toNat? with
+    | some n =>
+      let x := (List.range n).foldl (fun (acc : Srv) _ =>
+        runEnvs { acc with junkMarks := acc.junkMarks + 1 } [.proto .done .member .m3, .config true .done]) st.s
+      ({ st with s := x }, obs .ok x)
+    | none => (st, "bad-op")
+  -- `chanfill n`: n messages of the aggregated channel type for the run `freshK`, read by the protocol only at the end
+  | ["chanfill", n] =>
+    match n.toNat? with
+    | some n =>
+      let x := runEnvs st.s (List.replicate n (.proto (.fresh .K) .member .m2))
+      ({ st with s := x }, obs .ok x)
+    | none => (st, "bad-op")
   | ["storm", n] =>
     match n.toNat? with
     | some n => let x := runEnvs st.s (stormEnvs n); ({ st with s := x }, obs .ok x)
